@@ -5,6 +5,8 @@ import (
 	"go/token"
 	"sort"
 	"strings"
+
+	"golang.org/x/tools/go/ssa"
 )
 
 // dispatchObligations: for every entry (NT_K -> handler) of the registry built by package exec's
@@ -212,5 +214,74 @@ func keysOf(t *tables, hkey string) []string {
 		}
 	}
 	sort.Strings(out)
+	return out
+}
+
+// globalWriteScan (C13): outside package initialisers, a package-level variable of the hand-written packages may only
+// be read.  Storing to it, updating it when it is a map, or handing its address to a call (a cache, a sync.Map, a
+// pool) makes query results depend on history.  One structural obligation per package.
+func (v *verifier) globalWriteScan() []*Obligation {
+	var out []*Obligation
+	pkgs := []string{xselPath, xselPath + "/exec", xselPath + "/store", xselPath + "/parser", xselPath + "/grammar"}
+	for _, pp := range pkgs {
+		sp := v.spkgs[pp]
+		if sp == nil {
+			continue
+		}
+		var bad []string
+		var scan func(fn *ssa.Function)
+		scan = func(fn *ssa.Function) {
+			if fn.Name() == "init" || strings.HasPrefix(fn.Name(), "init#") {
+				return
+			}
+			for _, b := range fn.Blocks {
+				for _, in := range b.Instrs {
+					var ops []*ssa.Value
+					for _, op := range in.Operands(ops) {
+						g, ok := (*op).(*ssa.Global)
+						if !ok || g.Pkg == nil || g.Pkg != sp {
+							continue
+						}
+						switch x := in.(type) {
+						case *ssa.UnOp:
+							continue // a load
+						case *ssa.Store:
+							if x.Addr == ssa.Value(g) {
+								bad = append(bad, fmt.Sprintf("%s stores to %s", fnKey(fn), g.Name()))
+							}
+							continue
+						case *ssa.FieldAddr, *ssa.IndexAddr:
+							bad = append(bad, fmt.Sprintf("%s takes the address of a part of %s", fnKey(fn), g.Name()))
+						default:
+							bad = append(bad, fmt.Sprintf("%s passes the address of %s to %T", fnKey(fn), g.Name(), in))
+						}
+					}
+					if mu, ok := in.(*ssa.MapUpdate); ok {
+						if ld, ok := mu.Map.(*ssa.UnOp); ok {
+							if g, ok := ld.X.(*ssa.Global); ok && g.Pkg == sp {
+								bad = append(bad, fmt.Sprintf("%s updates the package-level map %s", fnKey(fn), g.Name()))
+							}
+						}
+					}
+				}
+			}
+			for _, an := range fn.AnonFuncs {
+				scan(an)
+			}
+		}
+		for _, fn := range v.funcs {
+			if fn.Pkg == sp && fn.Parent() == nil {
+				scan(fn)
+			}
+		}
+		sort.Strings(bad)
+		goal := "true"
+		src := "package-level variables are only read outside initialisers"
+		if len(bad) > 0 {
+			goal = "false"
+			src += ": " + strings.Join(bad, "; ")
+		}
+		out = append(out, &Obligation{Name: "structural/no-global-writes[" + sp.Pkg.Name() + "]", Fn: sp.Pkg.Name(), Kind: "structural", Goal: goal, Src: src, Props: []string{"C13"}, tr: emptyTrans(v)})
+	}
 	return out
 }
